@@ -47,6 +47,16 @@ func c09Gen(seed uint64, tier string) any {
 	for i := 0; i < r.Range(1, 3); i++ {
 		sc.Stmts = append(sc.Stmts, g.followUp(r))
 	}
+	if r.Chance(1, 4) && o.Stmts {
+		// restored functions / computed values whose first use happens underneath another restored body
+		sc.Stmts = append(sc.Stmts, Pick(r, []string{
+			"func fact(n0) { if n0 <= 1 { return 1 }; return n0 * fact(n0 - 1) }; &fc = fact(this.n ?? 3) + d6; &fc.n = 4; 1",
+			"func lp(n0) { i = 0; s = 0; while i < n0 { s = s + i; i = i + 1 }; return s }; &lc = lp(4) + 1; 2",
+			"&tc = `a{% if 1 { 2 } %}b{d4}`; 3", "func em() { }; &ec = em() ?? 5; 4", "func ee() {}; 5", "func two(u, v, w) { return u * 100 + v * 10 + w }; &tw = two(1, 2, 3); 6",
+			"func inner() { return 2d6 }; func outer() { return inner() + inner() }; &oc = outer(); 7", "&ca = 1; &cb = ca + 1; &cc = cb + ca; 8",
+		}))
+		sc.Stmts = append(sc.Stmts, Pick(r, []string{"fc", "lc", "tc", "ec", "ee()", "em()", "tw", "oc + oc", "cc", "fact(3)", "lp(3)", "two(3,2,1)", "outer()"}))
+	}
 	if r.Chance(1, 5) {
 		sc.Stmts = append(sc.Stmts, Pick(r, []string{
 			"cyc = [1]; cyc.push(cyc); 1", "cyd = {'k':1}; cyd.me = cyd; 2", "ff2 = 1.0 / 0", "&cc = 1; &cc.me = cc; 3", "nn = 2 ^ 9999.5", "inf2 = 10.0 ^ 400",
